@@ -1,2 +1,11 @@
 ; C16 vocabulary: build as a function (it is deterministic and pure); its defining equations are the proved postconditions.
 (declare-fun buildF (String Any) Any)
+
+; C17 vocabulary: the shape of the value the generated PEG parser hands to build (IRI leaves under AND / OR nodes).
+;; istype isPathIRI path.IRI
+;; istype isPathAND path.AND
+;; istype isPathOR path.OR
+(declare-fun wfAst (Any) Bool)
+(declare-fun wfAstAll (Seq_Any) Bool)
+(assert (forall ((a Any)) (! (= (wfAst a) (or (isPathIRI a) (and (isPathAND a) (wfAstAll (|S_path_AND.body| (unbox_path_AND a)))) (and (isPathOR a) (wfAstAll (|S_path_OR.body| (unbox_path_OR a)))))) :pattern ((wfAst a)))))
+(assert (forall ((s Seq_Any) (i Int)) (! (=> (and (wfAstAll s) (<= 0 i) (< i (len_Any s))) (wfAst (at_Any s i))) :pattern ((wfAstAll s) (at_Any s i)))))
